@@ -120,6 +120,36 @@ def origin_table(ctx, rule):
 
 
 
+def origin_args(ctx, rule):
+    """IgnoreFilesFromOriginArgs: constructors keep what they are given, canonicalise() resolves every path through the filesystem in order (shared with C03)"""
+    A14 = D + "::IgnoreFilesFromOriginArgs"
+    wantc = {
+        "new": {"origin": "From::from(AsRef::as_ref(origin))", "explicit_watches": "explicit_watches", "explicit_ignores": "explicit_ignores"},
+        "new_unchecked": {"origin": "Into::into(AsRef::as_ref(origin))", "explicit_watches": "Iterator::collect(Iterator::map(IntoIterator::into_iter(explicit_watches), Into::into))",
+                          "explicit_ignores": "Iterator::collect(Iterator::map(IntoIterator::into_iter(explicit_ignores), Into::into))"},
+    }
+    for nm_, want_ in wantc.items():
+        fa = ctx.anchor_fn(rule, A14 + "::" + nm_)
+        lit_ = [x for x in thir.find(thir.root(fa), "adt") if x.get("adt", "").endswith("IgnoreFilesFromOriginArgs")]
+        got_ = [{k: pathx.desc(v) for k, v in x["f"]} for x in lit_]
+        muts_ = sorted({strip_generics(c).split("::")[-1] for c, nd in thir.calls_in(thir.root(fa)) if nd["a"] and pathx.desc(nd["a"][0]) in ("explicit_watches", "explicit_ignores", "this.explicit_watches", "this.explicit_ignores")
+                        and strip_generics(c).split("::")[-1] in ("retain", "sort", "sort_unstable", "dedup", "dedup_by", "truncate", "clear", "drain", "reverse")})
+        ctx.require(got_ == [want_] and not muts_, rule, "args:" + nm_, "IgnoreFilesFromOriginArgs::%s keeps the origin, the watch list and the explicit ignore files as given" % nm_, fa.loc(fa.line),
+                    detail=(str(got_) + " " + str(muts_))[:300], fail="IgnoreFilesFromOriginArgs::%s alters what it is given (%s %s): a thinned-out watch list reads as `no restriction`, reordered explicit files change precedence" % (nm_, str(got_)[:160], muts_))
+    ca = body_of(ctx, rule, A14 + "::canonicalise")
+    lit_ = [x for x in thir.find(thir.root(ca), "adt") if x.get("adt", "").endswith("IgnoreFilesFromOriginArgs")]
+    got_ = [{k: pathx.desc(v) for k, v in x["f"]} for x in lit_]
+    wantk = {"origin": "await canonicalize::canonicalize(self.origin)?",
+             "explicit_watches": "await try_join_all::try_join_all(Iterator::map(IntoIterator::into_iter(self.explicit_watches), canonicalize::canonicalize))?",
+             "explicit_ignores": "await try_join_all::try_join_all(Iterator::map(IntoIterator::into_iter(self.explicit_ignores), canonicalize::canonicalize))?"}
+    canon = sorted({c for c, _ in thir.calls_in(thir.root(ca)) if c.split("::")[-1] == "canonicalize"})
+    reord_ = sorted({strip_generics(c).split("::")[-1] for c, _ in thir.calls_in(thir.root(ca)) if strip_generics(c).split("::")[-1] in ("sort", "sort_unstable", "dedup", "sort_by", "dedup_by", "reverse", "retain")})
+    ctx.require(got_ == [wantk] and canon == ["tokio::fs::canonicalize::canonicalize"] and not reord_, rule, "args:canonicalise",
+                "canonicalise() resolves the origin and every listed path with tokio::fs::canonicalize, in order", ca.loc(ca.line), detail=(str(got_) + str(canon) + str(reord_))[:300],
+                fail="canonicalise() no longer resolves every path through the filesystem in the given order (%s %s %s): origin-level files are keyed under a different spelling than the walk uses, or explicit files are reordered" % (str(got_)[:120], canon, reord_))
+
+
+
 def run(ctx):
     ctx.level = "other"
     facts = ctx.facts
@@ -295,6 +325,10 @@ def run(ctx):
     try:
         from . import c03 as _c03b
         _c03b.builders_stay(ctx, "R14.3")
+    except Skip:
+        pass
+    try:
+        origin_args(ctx, "R14.2")
     except Skip:
         pass
     # the CLI hands its watch list to the discovery unfiltered (an empty list means `no restriction`, so nothing may thin it out)
